@@ -46,7 +46,7 @@ async function main() {
     for (const run of r.runs) ok(sameRun(run), '(2) optional call, scenario ' + run.sid, J(run.in) + ' vs ' + J(run.out));
     const d = r.runs[0];
     ok(J(d.in.log) === J([{ e: 'get', o: 'a', k: 'trim' }, { e: 'call', f: 'a.trim#1', t: '@a', a: ['@b'] }]), '(2) u.call(t,b) logs exactly one call with f=id(u), t=@id(t)', J(d.out.log));
-    ok(J(d.out.hooks) === J([{ name: 'trim', configured: true, at: 2, args: ['@a.trim#1()#1', '@a.trim#1', '@a', '@b'], result: '@a.trim#1()#1' }]), '(2) hook stream', J(d.out.hooks));
+    ok(J(d.out.hooks) === J([{ name: 'trim', configured: true, at: 2, args: ['@a.trim#1()#1', '@a.trim#1', '@a', '@b'], result: '@a.trim#1()#1', check: 'skip' }]), '(2) hook stream', J(d.out.hooks));
     ok(d.in.hooks === undefined && d.in.outcome.v === '@a.trim#1()#1', '(2) input outcome', J(d.in.outcome));
     ok(r.runs[1].in.log.length === 0 && r.runs[1].in.outcome.v === 'undefined:undefined' && r.runs[1].out.hooks.length === 0, '(2) var:a undef short-circuits');
     ok(r.runs[3].in.outcome.v === 's:S' && r.runs[3].out.hooks[0].args[0] === 's:S', '(2) var:a str uses the real trim', J(r.runs[3].out));
